@@ -23,6 +23,7 @@ type ScopeWS struct {
 	GlobalDefs map[string][]GSite // free-name write sites per name, over all files
 	GlobalUses map[string][]GSite // every free-name occurrence per name
 	Loose      bool               // arbitrary files (repository testdata), not generator output
+	DeclMember bool               // Loose, and every member chain in the files is declared down to its last key
 }
 
 type GSite struct {
